@@ -3,7 +3,10 @@ from vlib import Job
 FUNCS = ["parsec_argv_split", "parsec_argv_split_with_empty", "parsec_argv_split_inter", "parsec_argv_join",
          "parsec_argv_join_range", "parsec_argv_count", "parsec_argv_len", "parsec_argv_append", "parsec_argv_append_nosize",
          "parsec_argv_prepend_nosize", "parsec_argv_insert", "parsec_argv_insert_element", "parsec_argv_delete",
-         "parsec_argv_copy", "parsec_argv_free"]
+         "parsec_argv_copy", "parsec_argv_free",
+         "free_parse_results", "parsec_cmd_line_get_tail", "parsec_cmd_line_parse", "parsec_cmd_line_get_ninsts",
+         "parsec_cmd_line_is_taken", "parsec_cmd_line_get_param", "parsec_cmd_line_get_argc", "parsec_cmd_line_get_argv",
+         "parsec_cmd_line_make_opt3"]
 
 META = dict(
     level="other",
@@ -22,11 +25,23 @@ META = dict(
                 "delete: for every (start, num) in [-1,count+1]^2 exactly the positions [start, min(start+num,count)) are removed and "
                 "freed exactly once (ghost counter on free), the others keep their order and are not freed, result NULL-terminated, "
                 "*argc equals the new count after every call, also when the range runs past the end of the vector (only the "
-                "existing tokens are removed) or the call is a no-op / rejected.",
+                "existing tokens are removed) or the call is a no-op / rejected.  "
+                "Command line (real cmd_line.c with the real object system and list class, h_cmdline.c): free_parse_results, from ANY "
+                "recorded counts and fixed vector / record shapes, resets lcl_argc, lcl_argv, lcl_tail_argc, lcl_tail_argv, empties the "
+                "parameter list and releases every record, vector and string exactly once, thereby establishing the representation "
+                "invariant lcl_tail_argc == count(lcl_tail_argv); parsec_cmd_line_get_tail, under that invariant, returns exactly "
+                "(count, fresh copy of the tail) and keeps it; parsec_cmd_line_parse, for EVERY command line of argv[0] plus up to 2 "
+                "(thorough: 3) tokens from {--num, -v, --, x, y, -q} with the options -n/--num (1 parameter) and -v/--verbose (0) "
+                "declared, ignore_unknown true and false, on a fresh handle and on a handle that already parsed another command line, "
+                "agrees with a reference written from cmd_line.h: instances and parameters of each declared option in order (by long "
+                "and short name), is_taken, nothing for undeclared names, tail == remaining arguments of THIS parse, error iff unknown "
+                "option / missing parameter / un-ignored unknown token, argc/argv recorded as copies, tail invariant kept.",
     trusted_base=["CBMC's models of malloc/calloc/free/strdup/strlen/strcpy/strncpy",
                   "realloc modelled in the harness (verif_realloc: always moves, copies the entries up to the NULL terminator, rest of "
                   "the new block arbitrary, frees the old block) instead of CBMC's built-in model",
-                  "free() of argv.c routed through a ghost counter (verif_free) before the real free",
+                  "free() of argv.c / cmd_line.c / the object system routed through a ghost counter (verif_free) before the real free",
+                  "strtoul stubbed as an arbitrary number in h_cmdline.c (set_dest converts before testing for a destination; none is declared)",
+                  "CBMC's models of fprintf/atol/strcmp/strncmp",
                   "cbmc option --max-field-sensitivity-array-size 200 (so that the 128-byte buffer of split is tracked per element)"],
     assumptions=["allocation does not fail (--no-malloc-may-fail); argv.c does not test several of its allocations",
                  "vectors handed to the functions are NULL-terminated heap arrays owning heap strings (the header's stated usage)",
@@ -39,11 +54,16 @@ MANIFEST = dict(
     category="other",
     text="Contracts taken from the property statement (split == fields, join == v0 d v1 ..., split/join round-trip lemmas, "
          "insert/delete change exactly the addressed positions, deleted entries freed exactly once) checked on the real argv.c by "
-         "CBMC over a bounded shape: every string up to length 4 (thorough: 6) over a small alphabet for split, vectors of up to 3 "
+         "CBMC over a bounded shape (command-line parsing: every command line of up to 2-3 tokens over a 6-token alphabet against a "
+         "reference parser, plus free_parse_results / get_tail contracts): every string up to length 4 (thorough: 6) over a small alphabet for split, vectors of up to 3 "
          "(thorough: 4) entries with symbolic strings of length <= 2 (3) for the vector operations, every position argument in "
          "range.  Bounded in string length / vector size, hence 'other', not 'proof'.",
-    note="NOT decided: the command-line parsing clause of C39 (parsec_cmd_line_parse: 1.3 kLoC option machinery on top of the object "
-         "system, lists and mutexes; declared out of reach in DESIGN.md, no obligation is stated for it).  Split strings are "
+    note="Command-line clause: decided only for enumerated small shapes (two declared options with 0/1 parameter, <= 2 tokens quick / "
+         "3 thorough from a 6-token alphabet, '--', an unknown option, unknown tokens, ignore_unknown both ways, re-parse on the "
+         "same handle) plus the contracts of free_parse_results and get_tail.  NOT decided there: combined short options (split_shorts "
+         "beyond one unknown letter), single-dash names, options with >= 2 parameters, variable / MCA destinations (set_dest), "
+         "parsec_cmd_line_create from a table, the usage message, the destructor, concurrent use of a handle (mutex taken as "
+         "call-atomic), longer command lines.  Split strings are "
          "enumerated, not symbolic (symbolic characters make the engine explore the malloc(arglen+1) long-field branch with a "
          "symbolic size and do not finish).  parsec_argv_delete: the argc clause holds without precondition since /repo 307ebf2 "
          "(before it, a range running past the end left *argc below the real count; selftest 08 reverts that fix and must be "
@@ -145,4 +165,36 @@ def jobs(tier):
                                    "(g_ghost >= (unsigned)i || argv[g_ghost] != NULL)) "
                                    "__CPROVER_decreases(g_n - (unsigned)i)"}])],
                  functions=["parsec_argv_count"], min_obligations=6, timeout=300))
+    # ---- command line (h_cmdline.c)
+    US = {"expand_array.0": 11}
+    CF = ["free_parse_results", "parsec_cmd_line_get_tail", "parsec_cmd_line_parse"]
+    for (na, ntl, np_) in [(0, 0, 0), (2, 2, 2), (1, 0, 1)] + ([(3, 3, 3), (0, 3, 0)] if full else []):
+        J.append(Job("cmdline.free_results_get_tail.a%d.t%d.p%d" % (na, ntl, np_), "h_cmdline.c", entry="h_cmd_small",
+                     defines={"NA": na, "NTL": ntl, "NP": np_}, unwind=12, unwindset=US, object_bits=12, extra_cbmc=FS, canaries=3,
+                     bounded="handle with lcl_argv of %d, tail of %d entries (0 = NULL), %d parameter records (record k has k parameters); "
+                             "recorded counts arbitrary (free_parse_results) / consistent (get_tail)" % (na, ntl, np_),
+                     functions=CF, min_obligations=12))
+    PF = ["parsec_cmd_line_parse", "parsec_cmd_line_get_ninsts", "parsec_cmd_line_is_taken", "parsec_cmd_line_get_param",
+          "parsec_cmd_line_get_tail", "parsec_cmd_line_get_argc", "parsec_cmd_line_get_argv", "parsec_cmd_line_make_opt3",
+          "free_parse_results"]
+    firsts = {0: "fresh handle", 1: "handle that already parsed 'prog --num 7 -- p q'", 2: "handle that already parsed 'prog -v -v t'"}
+    # one process per (earlier parse, ignore_unknown): 43 command lines each
+    combos = [(0, 1), (0, 0), (1, 1)] + ([(1, 0), (2, 1), (2, 0)] if full else [])
+    for (first, ign) in combos:
+        J.append(Job("cmdline.parse.len0-2.first%d.ign%d" % (first, ign), "h_cmdline.c", entry="h_parse",
+                     defines={"MAXTOK": 2, "LEN_LO": 0, "FIRST": first, "IGN": ign, "CODE_LO": 0, "CODE_HI": 35}, unwind=12,
+                     unwindset=dict(US, **{"h_parse.3": 39}), object_bits=14, extra_cbmc=FS,
+                     bounded="all 43 command lines of argv[0] + 0..2 tokens from {--num,-v,--,x,y,-q}, ignore_unknown=%d, on a %s"
+                             % (ign, firsts[first]),
+                     functions=PF, timeout=1200, min_obligations=15))
+    if full:
+        for first, igns in ((1, (0, 1)), (0, (1,))):
+            for ign in igns:
+                for lo in range(0, 216, 36):
+                    J.append(Job("cmdline.parse.len3.first%d.ign%d.codes%d-%d" % (first, ign, lo, lo + 35), "h_cmdline.c", entry="h_parse",
+                                 defines={"MAXTOK": 3, "LEN_LO": 3, "FIRST": first, "IGN": ign, "CODE_LO": lo, "CODE_HI": lo + 35},
+                                 unwind=12, unwindset=dict(US, **{"h_parse.3": 39}), object_bits=12, extra_cbmc=FS,
+                                 bounded="command lines of argv[0] + 3 tokens from {--num,-v,--,x,y,-q} (216; this job: codes %d..%d), "
+                                         "ignore_unknown=%d, on a %s" % (lo, lo + 35, ign, firsts[first]),
+                                 functions=PF, timeout=1800, min_obligations=15))
     return J
